@@ -370,6 +370,8 @@ def schema_to_struct_code(
         ]
 
     body += ["", f"    _required = {required}"] if required is not None else []
+    if len(body) == 1:
+        body += ["    pass"]
 
     return "\n".join(body)
 
